@@ -562,3 +562,7 @@ func verifMapValue(d verifDoc) []byte { return nil }
 func verifCollLess(a, b []byte) bool  { return false }
 func verifAnyJSON(v any) []byte       { b, _ := json.Marshal(v); return b }
 func verifSymOnly()                   {}
+
+func verifRevidText(rev int64) []byte { return []byte(fmt.Sprintf(`"%d"`, rev)) }
+
+func verifXattrsBlob(name string) []byte { return verifBytes(name) }
